@@ -16,6 +16,37 @@ from .. import exact, layout, sev, tlc
 from . import common, rys
 
 
+def run_os1e(ctx, prime, slip, shapes):
+    """The as-implemented vertical + horizontal recursion (OS1e.tla) against the Rys definition on a rational grid."""
+    d = tlc.scratch("os1e")
+    body = """
+CONSTANT P
+E == INSTANCE Exact
+G == INSTANCE Gauss
+Ax(a, b, A, B, C) == G!Derive([a |-> E!FromRat(a), b |-> E!FromRat(b), A |-> E!FromRat(A), B |-> E!FromRat(B), C |-> E!FromRat(C)])
+MCGrid3 == { <<Ax(<<1,2>>, <<3,1>>, <<0,1>>, <<1,1>>, <<1,2>>), Ax(<<1,2>>, <<3,1>>, <<1,2>>, <<-1,1>>, <<2,1>>), Ax(<<1,2>>, <<3,1>>, <<0,1>>, <<-3,2>>, <<-1,1>>)>>,
+             <<Ax(<<7,2>>, <<1,1>>, <<0,1>>, <<0,1>>, <<0,1>>), Ax(<<7,2>>, <<1,1>>, <<1,1>>, <<1,1>>, <<3,1>>), Ax(<<7,2>>, <<1,1>>, <<-1,2>>, <<2,1>>, <<-1,2>>)>>,
+             <<Ax(<<3,1>>, <<3,1>>, <<0,1>>, <<2,1>>, <<1,1>>), Ax(<<3,1>>, <<3,1>>, <<0,1>>, <<0,1>>, <<5,1>>), Ax(<<3,1>>, <<3,1>>, <<1,4>>, <<-1,4>>, <<0,1>>)>> }
+MCShapes == {%s}
+VARIABLES q, shape, vert, hor, pc, fresh
+INSTANCE OS1e WITH Grid3 <- MCGrid3, Shapes <- MCShapes, Slip <- "%s"
+""" % (", ".join("<<%d, %d>>" % s_ for s_ in shapes), slip)
+    tlc.write_module(d, "MC_OS1e", body)
+    try:
+        res = tlc.run(d, "MC_OS1e", "CONSTANT P = %d\nSPECIFICATION Spec\nINVARIANT VertOK\nINVARIANT HorOK\nINVARIANT DoneOK\n" % prime,
+                      workers=6, timeout=3000)
+    finally:
+        tlc.cleanup(d)
+    if slip != "none":
+        if res.ok:
+            raise tlc.MachineryError("negative control: OS1e with a wrong coefficient in the z pass still equals the definition")
+        ctx.extra.setdefault("negative_controls_detected_by_TLC", []).append("OS1e with (a+1)/(2p) in the z pass violates " + str(res.violated))
+        return
+    if not res.ok:
+        ctx.spec_violation("OS1e", res)
+    ctx.add_tlc("OS1e(P=%d): as-implemented vertical and horizontal recursion = Rys definition on a rational grid, shapes %s" % (prime, shapes), res)
+
+
 def charge_positions(rng, basis, n):
     out = []
     for k in range(n):
@@ -209,8 +240,11 @@ def run(pid, tier, seed, only_case=None):
             sums.add((exact.dy(f["e"][0]) + exact.dy(f["e"][1])).numerator)
     primes = rys.pick_primes(sums)
     spec_cases = [{k: v for k, v in f.items() if not k.startswith("_")} for f in fl]
-    r = common.run_models_parallel([lambda: rys.run_replayrys(ctx, spec_cases, primes[0], 8),
-                                    lambda: rys.run_replayrys(ctx, spec_cases, primes[1], 8)])
+    jobs = [lambda: rys.run_replayrys(ctx, spec_cases, primes[0], 6), lambda: rys.run_replayrys(ctx, spec_cases, primes[1], 6)]
+    if only_case is None:
+        shapes = [(0, 0), (1, 0), (1, 1), (2, 0), (2, 1)] + ([] if tier == "quick" else [(2, 2), (3, 1), (3, 0)])
+        jobs += [lambda: run_os1e(ctx, primes[0], "none", shapes), lambda: run_os1e(ctx, primes[0], "coef", [(2, 1)])]
+    r = common.run_models_parallel(jobs)
     for f in fl:
         f["tlc"] = {str(primes[0]): r[0][f["id"]], str(primes[1]): r[1][f["id"]]}
     order = sorted(range(len(cases)), key=lambda i: -sum(s["l"] for s in cases[i]["basis"]))
